@@ -80,6 +80,9 @@ Definition sx_edit (x : sx) : option edit :=
       | Some a, Some b, Some c, Some d => Some (ENodeField a b c f d) | _, _, _, _ => None end
   | SL [SI 7; li; ci] =>
       match sx_nat li, sx_nat ci with Some a, Some b => Some (EDelCap a b) | _, _ => None end
+  | SL [SI 8; li; ci; ni; k; v] =>
+      match sx_nat li, sx_nat ci, sx_nat ni, sx_tree k, sx_tree v with
+      | Some a, Some b, Some c, Some d, Some e => Some (ENodeDict a b c d e) | _, _, _, _, _ => None end
   | _ => None
   end.
 
@@ -116,7 +119,7 @@ Definition req_run (arg : sx) : sx :=
   | _ => bad
   end.
 
-Definition sx_iobs (x : sx) : option iobs :=
+Definition sx_iobs (x : sx) : option (iobs Z) :=
   match x with
   | SL [SI k; SI s; SI key; SI out; SI pr; ds] =>
       match sx_listof sx_int ds with
